@@ -642,7 +642,10 @@ class Connection(ExportImport):
 
             # if we write an object, we don't want to check if it was read
             # while current.  This is a convenient choke point to do this.
-            self._readCurrent.pop(oid, None)
+            # (Not for stores into a savepoint, which a rollback can still
+            # take back: _commit_savepoint() does it for those.)
+            if transaction is not None:
+                self._readCurrent.pop(oid, None)
             if s:
                 # savepoint
                 obj._p_changed = 0  # transition from changed to up-to-date
